@@ -11,6 +11,7 @@
 package migrator
 
 import (
+	"bytes"
 	"encoding/gob"
 	"encoding/json"
 	"errors"
@@ -313,9 +314,26 @@ func (m *Migrator) migrateSwamp(folderPath string) {
 	// The target must be free. The V2 writer opens a file that exists for appending: its header and
 	// swamp name would stay, its records would end up under the migrated ones (a V2 engine may have
 	// been writing to it since an earlier run), and a failing write or verification below would then
-	// remove it. Leave it alone and fail this swamp.
+	// remove it.
 	if _, statErr := os.Stat(hydFilePath); !errors.Is(statErr, os.ErrNotExist) {
-		m.recordFailure(folderPath, "target file already exists: "+hydFilePath, "write")
+		// An earlier run without DeleteOld leaves exactly this behind. Only a target that holds exactly
+		// the legacy data (same swamp name, same keys, same values) counts as already migrated: nothing
+		// is written, and the old files can go now. Anything else is left alone and fails this swamp.
+		if statErr != nil || !m.targetEqualsLegacy(hydFilePath, entries, swampName) {
+			m.recordFailure(folderPath, "target file already exists and does not hold exactly the legacy data: "+hydFilePath, "write")
+			return
+		}
+		slog.Info("Swamp already migrated - target file holds exactly the legacy data",
+			"path", folderPath,
+			"swamp_name", swampName)
+		if m.config.DeleteOld {
+			if err := m.deleteV1Files(folderPath); err != nil {
+				slog.Warn("Failed to delete old V1 files",
+					"path", folderPath,
+					"error", err)
+			}
+		}
+		atomic.AddInt64(&m.result.SuccessfulSwamps, 1)
 		return
 	}
 	err = m.writeV2File(hydFilePath, entries, swampName)
@@ -563,6 +581,29 @@ func (m *Migrator) writeV2File(filePath string, entries []v2.Entry, swampName st
 	}
 
 	return nil
+}
+
+// targetEqualsLegacy reports whether the .hyd file at the target path holds exactly the legacy
+// data: the same swamp name, no key the legacy data does not have, and every legacy entry with
+// byte-identical data.
+func (m *Migrator) targetEqualsLegacy(hydFilePath string, entries []v2.Entry, swampName string) bool {
+	reader, err := v2.NewFileReader(hydFilePath)
+	if err != nil {
+		return false
+	}
+	defer reader.Close()
+
+	index, name, err := reader.LoadIndex()
+	if err != nil || name != swampName || len(index) != len(entries) {
+		return false
+	}
+	for _, entry := range entries {
+		data, exists := index[entry.Key]
+		if !exists || !bytes.Equal(data, entry.Data) {
+			return false
+		}
+	}
+	return true
 }
 
 // verifyMigration verifies that the V2 file contains all expected entries
